@@ -100,7 +100,7 @@ def split_native(line):
         nat[0] = nat[0][4:]
         ro = [t for t in nat if t.startswith('RO:')]   # request count of a read-only connection: s3db's
         nat = [t for t in nat if t != '' and not t.startswith('RO:')]
-        if toks and toks[0] in ('SA', 'SD'):
+        if toks and toks[0] in ('SA', 'SD', 'SO'):
             nat = [toks[0]] + nat
         s3 = toks[:ni] + toks[mi:] + ro
         kept.append(' '.join(s3)); pairs.append((s3, nat))
